@@ -10,7 +10,8 @@
        always a prefix of what has been asked so far, chunk by chunk in order (nothing lost,
        duplicated, reordered, invented, or sent to the other sink);
      - no chunk is longer than the buffer size in force;
-     - after a flush, and after every operation when there is no buffer, nothing asked
+     - after a flush, a teardown and the destruction of the terminal, and after every
+       operation when there is no buffer (none set, or its allocation failed), nothing asked
        for is still outstanding.
    The property fixes the configuration "while output is pending".  A resize with bytes
    outstanding is outside it: the checker forgets the outstanding bytes and raises
@@ -37,8 +38,8 @@ Definition asked (o : op) : option (list byte) :=
       else if (0 <? len) && (len <=? zlen mem) then Some (firstn (Z.to_nat len) mem)
       else None
   | OWritef f => Some f
-  | OSetBuf n => if n <? 0 then None else Some []
-  | OFlush | OSetFunc _ | OSetFd _ => Some []
+  | OSetBuf n | OSetBufFail n => if n <? 0 then None else Some []
+  | OFlush | OTeardown | ODestroy | OSetFunc _ | OSetFd _ => Some []
   end.
 
 Definition sink_eqb (a b : sink) : bool :=
@@ -83,7 +84,7 @@ Fixpoint config_when_drained (s : obuf) (ops : list op) : Prop :=
   | [] => True
   | o :: r =>
     (match o with
-     | OSetBuf _ => pending s = []
+     | OSetBuf _ | OSetBufFail _ => pending s = []
      | OSetFunc b => active (set_output_func s b) <> active s -> pending s = []
      | OSetFd b => active (set_output_fd s b) <> active s -> pending s = []
      | _ => True
@@ -96,14 +97,14 @@ Fixpoint config_when_drained (s : obuf) (ops : list op) : Prop :=
 Fixpoint config_after_flush (drained : bool) (ops : list op) : bool :=
   match ops with
   | [] => true
-  | (OSetBuf _ | OSetFunc _ | OSetFd _) :: r => drained && config_after_flush true r
-  | OFlush :: r => config_after_flush true r
+  | (OSetBuf _ | OSetBufFail _ | OSetFunc _ | OSetFd _) :: r => drained && config_after_flush true r
+  | (OFlush | OTeardown | ODestroy) :: r => config_after_flush true r
   | _ :: r => config_after_flush false r
   end.
 
 (* the same history with every buffer size replaced by "none" *)
 Definition unbuffered (ops : list op) : list op :=
-  map (fun o => match o with OSetBuf _ => OSetBuf 0 | _ => o end) ops.
+  map (fun o => match o with OSetBuf _ | OSetBufFail _ => OSetBuf 0 | _ => o end) ops.
 
 (* ---------------- the checker used as the oracle ---------------- *)
 
@@ -136,7 +137,7 @@ Fixpoint take_chunks (cp : Z) (act : option sink) (outst : list byte) (cs : list
 Definition is_nil {A} (l : list A) : bool := match l with [] => true | _ :: _ => false end.
 
 Definition must_drain (k : ck) (o : op) : bool :=
-  match o with OFlush => true | _ => k_cap k =? 0 end.
+  match o with OFlush | OTeardown | ODestroy => true | _ => k_cap k =? 0 end.
 
 Definition with_outst (k : ck) (o : list byte) : ck := mkCk (k_cap k) (k_func k) (k_fd k) o (k_forfeit k).
 Definition forfeited (k : ck) : ck := mkCk (k_cap k) (k_func k) (k_fd k) [] true.
@@ -144,9 +145,11 @@ Definition forfeited (k : ck) : ck := mkCk (k_cap k) (k_func k) (k_fd k) [] true
 (* result: the next state and whether checking stops here *)
 Definition check_step (k : ck) (o : op) (d : list tchunk) : option (ck * bool) :=
   match o with
-  | OSetBuf n =>
+  | OSetBuf n | OSetBufFail n =>
+      (* a buffer whose allocation fails is no buffer: size 0 in force *)
+      let n' := match o with OSetBufFail _ => 0 | _ => n end in
       if is_nil d && (0 <=? n)
-      then Some (mkCk n (k_func k) (k_fd k) [] (k_forfeit k || negb (is_nil (k_outst k))), false)
+      then Some (mkCk n' (k_func k) (k_fd k) [] (k_forfeit k || negb (is_nil (k_outst k))), false)
       else None
   | OSetFunc _ | OSetFd _ =>
       (* chunks seen during a reconfiguration can only be a flush to the sink active before it *)
